@@ -15,8 +15,8 @@ impl PathBuf {
 }
 
 //@ item home_dir file=src/sys/fs/path.rs fn=home_dir props=C18,C17,C12
-//@ rw R8 1 ⟦std::env::var("HOME")?⟧ => ⟦env_var("HOME")?⟧
-//@ rw R1 1 ⟦PathBuf::from(home)⟧ => ⟦PathBuf::from_s(&home)⟧
+//@ rw R8 * ⟦std::env::var("HOME")?⟧ => ⟦env_var("HOME")?⟧
+//@ rw R1 * ⟦PathBuf::from(home)⟧ => ⟦PathBuf::from_s(&home)⟧
 pub fn home_dir() -> (r: RvResult<PathBuf>)
     ensures r is Ok == env("HOME"@) is Some, r is Ok ==> r->Ok_0.pstr() == env("HOME"@)->Some_0 && r->Ok_0.comps() == parse(env("HOME"@)->Some_0),   //@ clause home_dir.is_HOME [C18,C17]
             r is Err ==> r->Err_0.kind == ErrKind::Var,
@@ -27,9 +27,9 @@ pub open spec fn under_home1(a: Seq<char>) -> Comps { spec_mash(parse(env("HOME"
 pub open spec fn under_home2(a: Seq<char>, b: Seq<char>) -> Comps { spec_mash(spec_mash(parse(env("HOME"@)->Some_0), parse(a)), parse(b)) }
 
 //@ item config_dir file=src/sys/user.rs fn=config_dir props=C18,C12
-//@ rw R8 1 ⟦env::var("XDG_CONFIG_HOME")⟧ => ⟦env_var("XDG_CONFIG_HOME")⟧
-//@ rw R1 1 ⟦PathBuf::from(x)⟧ => ⟦PathBuf::from_s(&x)⟧
-//@ rw R1 1 ⟦.mash(".config")⟧ => ⟦.mash_lit(".config")⟧
+//@ rw R8 * ⟦env::var("XDG_CONFIG_HOME")⟧ => ⟦env_var("XDG_CONFIG_HOME")⟧
+//@ rw R1 * ⟦PathBuf::from(x)⟧ => ⟦PathBuf::from_s(&x)⟧
+//@ rw R1 * ⟦.mash(".config")⟧ => ⟦.mash_lit(".config")⟧
 pub fn config_dir() -> (r: RvResult<PathBuf>)
     ensures
         // the variable is set: its value is returned as given (a value that is set but empty is left to the caller: XDG says "unset or empty")
@@ -40,9 +40,9 @@ pub fn config_dir() -> (r: RvResult<PathBuf>)
 //@ body
 
 //@ item cache_dir file=src/sys/user.rs fn=cache_dir props=C18,C12
-//@ rw R8 1 ⟦env::var("XDG_CACHE_HOME")⟧ => ⟦env_var("XDG_CACHE_HOME")⟧
-//@ rw R1 1 ⟦PathBuf::from(x)⟧ => ⟦PathBuf::from_s(&x)⟧
-//@ rw R1 1 ⟦.mash(".cache")⟧ => ⟦.mash_lit(".cache")⟧
+//@ rw R8 * ⟦env::var("XDG_CACHE_HOME")⟧ => ⟦env_var("XDG_CACHE_HOME")⟧
+//@ rw R1 * ⟦PathBuf::from(x)⟧ => ⟦PathBuf::from_s(&x)⟧
+//@ rw R1 * ⟦.mash(".cache")⟧ => ⟦.mash_lit(".cache")⟧
 pub fn cache_dir() -> (r: RvResult<PathBuf>)
     ensures
         // the variable is set: its value is returned as given (a value that is set but empty is left to the caller: XDG says "unset or empty")
@@ -53,10 +53,10 @@ pub fn cache_dir() -> (r: RvResult<PathBuf>)
 //@ body
 
 //@ item data_dir file=src/sys/user.rs fn=data_dir props=C18,C12
-//@ rw R8 1 ⟦env::var("XDG_DATA_HOME")⟧ => ⟦env_var("XDG_DATA_HOME")⟧
-//@ rw R1 1 ⟦PathBuf::from(x)⟧ => ⟦PathBuf::from_s(&x)⟧
-//@ rw R1 1 ⟦.mash(".local")⟧ => ⟦.mash_lit(".local")⟧
-//@ rw R1 1 ⟦.mash("share")⟧ => ⟦.mash_lit("share")⟧
+//@ rw R8 * ⟦env::var("XDG_DATA_HOME")⟧ => ⟦env_var("XDG_DATA_HOME")⟧
+//@ rw R1 * ⟦PathBuf::from(x)⟧ => ⟦PathBuf::from_s(&x)⟧
+//@ rw R1 * ⟦.mash(".local")⟧ => ⟦.mash_lit(".local")⟧
+//@ rw R1 * ⟦.mash("share")⟧ => ⟦.mash_lit("share")⟧
 pub fn data_dir() -> (r: RvResult<PathBuf>)
     ensures
         // the variable is set: its value is returned as given (a value that is set but empty is left to the caller: XDG says "unset or empty")
@@ -67,10 +67,10 @@ pub fn data_dir() -> (r: RvResult<PathBuf>)
 //@ body
 
 //@ item state_dir file=src/sys/user.rs fn=state_dir props=C18,C12
-//@ rw R8 1 ⟦env::var("XDG_STATE_HOME")⟧ => ⟦env_var("XDG_STATE_HOME")⟧
-//@ rw R1 1 ⟦PathBuf::from(x)⟧ => ⟦PathBuf::from_s(&x)⟧
-//@ rw R1 1 ⟦.mash(".local")⟧ => ⟦.mash_lit(".local")⟧
-//@ rw R1 1 ⟦.mash("state")⟧ => ⟦.mash_lit("state")⟧
+//@ rw R8 * ⟦env::var("XDG_STATE_HOME")⟧ => ⟦env_var("XDG_STATE_HOME")⟧
+//@ rw R1 * ⟦PathBuf::from(x)⟧ => ⟦PathBuf::from_s(&x)⟧
+//@ rw R1 * ⟦.mash(".local")⟧ => ⟦.mash_lit(".local")⟧
+//@ rw R1 * ⟦.mash("state")⟧ => ⟦.mash_lit("state")⟧
 pub fn state_dir() -> (r: RvResult<PathBuf>)
     ensures
         // the variable is set: its value is returned as given (a value that is set but empty is left to the caller: XDG says "unset or empty")
@@ -81,9 +81,9 @@ pub fn state_dir() -> (r: RvResult<PathBuf>)
 //@ body
 
 //@ item runtime_dir file=src/sys/user.rs fn=runtime_dir props=C18,C12
-//@ rw R8 1 ⟦env::var("XDG_RUNTIME_DIR")⟧ => ⟦env_var("XDG_RUNTIME_DIR")⟧
-//@ rw R1 1 ⟦PathBuf::from(x)⟧ => ⟦PathBuf::from_s(&x)⟧
-//@ rw R1 1 ⟦PathBuf::from("/tmp")⟧ => ⟦PathBuf::from_s(&Str::lit("/tmp"))⟧
+//@ rw R8 * ⟦env::var("XDG_RUNTIME_DIR")⟧ => ⟦env_var("XDG_RUNTIME_DIR")⟧
+//@ rw R1 * ⟦PathBuf::from(x)⟧ => ⟦PathBuf::from_s(&x)⟧
+//@ rw R1 * ⟦PathBuf::from("/tmp")⟧ => ⟦PathBuf::from_s(&Str::lit("/tmp"))⟧
 pub fn runtime_dir() -> (r: PathBuf)
     ensures env("XDG_RUNTIME_DIR"@) is Some ==> r.pstr() == env("XDG_RUNTIME_DIR"@)->Some_0,
             env("XDG_RUNTIME_DIR"@) is None ==> r.pstr() == "/tmp"@,                                     //@ clause runtime_dir.falls_back_to_tmp [C18]
@@ -103,8 +103,8 @@ pub open spec fn strs_of(v: Seq<PathBuf>) -> Seq<Seq<char>> { Seq::new(v.len(), 
 
 //@ item parse_paths file=src/sys/fs/path.rs fn=parse_paths props=C18,C15,C12
 //@ rw R9 1 ⟦let mut paths: Vec<PathBuf> = vec![];⟧ => ⟦let mut paths: Vec<PathBuf> = Vec::new();⟧
-//@ rw R4 1 ⟦value.as_ref().split(':')⟧ => ⟦split_colon(value.as_ref())⟧
-//@ rw R1 1 ⟦PathBuf::from(dir)⟧ => ⟦PathBuf::from_s(&dir)⟧
+//@ rw R4 * ⟦value.as_ref().split(':')⟧ => ⟦split_colon(value.as_ref())⟧
+//@ rw R1 * ⟦PathBuf::from(dir)⟧ => ⟦PathBuf::from_s(&dir)⟧
 //@ rw R3 1 for
 //@ ins after ⟦let mut paths: Vec<PathBuf> = Vec::new();⟧
     let ghost segs = split_colon_spec(value@);
@@ -142,10 +142,10 @@ pub open spec fn list_or(var: Seq<char>, dflt: Seq<Seq<char>>) -> Seq<Seq<char>>
     match env(var) { Some(v) => if nonempty(split_colon_spec(v)).len() == 0 { dflt } else { nonempty(split_colon_spec(v)) }, None => dflt }
 }
 //@ item sys_data_dirs file=src/sys/user.rs fn=sys_data_dirs props=C18,C12
-//@ rw R8 1 ⟦env::var("XDG_DATA_DIRS")⟧ => ⟦env_var("XDG_DATA_DIRS")⟧
-//@ rw R1 1 ⟦PathBuf::from("/usr/local/share")⟧ => ⟦PathBuf::from_s(&Str::lit("/usr/local/share"))⟧
-//@ rw R1 1 ⟦PathBuf::from("/usr/share")⟧ => ⟦PathBuf::from_s(&Str::lit("/usr/share"))⟧
-//@ rw R1 1 ⟦sys::parse_paths(x)?⟧ => ⟦parse_paths(&x)?⟧
+//@ rw R8 * ⟦env::var("XDG_DATA_DIRS")⟧ => ⟦env_var("XDG_DATA_DIRS")⟧
+//@ rw R1 * ⟦PathBuf::from("/usr/local/share")⟧ => ⟦PathBuf::from_s(&Str::lit("/usr/local/share"))⟧
+//@ rw R1 * ⟦PathBuf::from("/usr/share")⟧ => ⟦PathBuf::from_s(&Str::lit("/usr/share"))⟧
+//@ rw R1 * ⟦sys::parse_paths(x)?⟧ => ⟦parse_paths(&x)?⟧
 //@ ins after ⟦PathBuf::from_s(&Str::lit("/usr/share"))];⟧
     proof { assert(strs_of(default@) =~= seq!["/usr/local/share"@, "/usr/share"@]); }
 //@ endins
@@ -153,9 +153,9 @@ pub fn sys_data_dirs() -> (r: RvResult<Vec<PathBuf>>)
     ensures r is Ok, strs_of(r->Ok_0@) == list_or("XDG_DATA_DIRS"@, seq!["/usr/local/share"@, "/usr/share"@]),     //@ clause sys_data_dirs.listed_or_default [C18]
 //@ body
 //@ item sys_config_dirs file=src/sys/user.rs fn=sys_config_dirs props=C18,C12
-//@ rw R8 1 ⟦env::var("XDG_CONFIG_DIRS")⟧ => ⟦env_var("XDG_CONFIG_DIRS")⟧
-//@ rw R1 1 ⟦PathBuf::from("/etc/xdg")⟧ => ⟦PathBuf::from_s(&Str::lit("/etc/xdg"))⟧
-//@ rw R1 1 ⟦sys::parse_paths(x)?⟧ => ⟦parse_paths(&x)?⟧
+//@ rw R8 * ⟦env::var("XDG_CONFIG_DIRS")⟧ => ⟦env_var("XDG_CONFIG_DIRS")⟧
+//@ rw R1 * ⟦PathBuf::from("/etc/xdg")⟧ => ⟦PathBuf::from_s(&Str::lit("/etc/xdg"))⟧
+//@ rw R1 * ⟦sys::parse_paths(x)?⟧ => ⟦parse_paths(&x)?⟧
 //@ ins after ⟦PathBuf::from_s(&Str::lit("/etc/xdg"))];⟧
     proof { assert(strs_of(default@) =~= seq!["/etc/xdg"@]); }
 //@ endins
@@ -163,7 +163,7 @@ pub fn sys_config_dirs() -> (r: RvResult<Vec<PathBuf>>)
     ensures r is Ok, strs_of(r->Ok_0@) == list_or("XDG_CONFIG_DIRS"@, seq!["/etc/xdg"@]),     //@ clause sys_config_dirs.listed_or_default [C18]
 //@ body
 //@ item path_dirs file=src/sys/user.rs fn=path_dirs props=C18,C12
-//@ rw R8 1 ⟦sys::parse_paths(env::var("PATH")?)⟧ => ⟦parse_paths(&env_var("PATH")?)⟧
+//@ rw R8 * ⟦sys::parse_paths(env::var("PATH")?)⟧ => ⟦parse_paths(&env_var("PATH")?)⟧
 pub fn path_dirs() -> (r: RvResult<Vec<PathBuf>>)
     ensures r is Ok == env("PATH"@) is Some, r is Ok ==> strs_of(r->Ok_0@) == nonempty(split_colon_spec(env("PATH"@)->Some_0)),     //@ clause path_dirs.listed_in_order [C18]
 //@ body
@@ -174,7 +174,7 @@ pub uninterp spec fn u32_of(s: Seq<char>) -> Option<u32>;
 #[verifier::external_body]
 pub fn parse_u32(s: &Str) -> (r: Result<u32, ()>) ensures r is Ok == u32_of(s@) is Some, r is Ok ==> r->Ok_0 == u32_of(s@)->Some_0 { unimplemented!() }
 //@ item getrids file=src/sys/user.rs fn=getrids props=C18,C12
-//@ rw R8 1 ⟦(env::var("SUDO_UID"), env::var("SUDO_GID"))⟧ => ⟦(env_var("SUDO_UID"), env_var("SUDO_GID"))⟧
+//@ rw R8 * ⟦(env::var("SUDO_UID"), env::var("SUDO_GID"))⟧ => ⟦(env_var("SUDO_UID"), env_var("SUDO_GID"))⟧
 //@ rw R4 + re⟦\b(\w+)\.parse::<u32>\(\)⟧ => ⟦parse_u32(&\1)⟧
 pub fn getrids(uid: u32, gid: u32) -> (r: (u32, u32))
     ensures ({
@@ -212,7 +212,7 @@ impl Memfs {
 //@ rw R2 1 ⟦crate::sys::user::config_dir()⟧ => ⟦config_dir()⟧
 //@ rw R2 1 ⟦crate::sys::user::sys_config_dirs()⟧ => ⟦sys_config_dirs()⟧
 //@ rw R3 1 ⟦for config_dir in config_dirs {⟧ => ⟦for config_dir in vec_into_iter(config_dirs) {⟧
-//@ rw R1 1 ⟦config_dir.mash(config.as_ref())⟧ => ⟦config_dir.mash_s(config.as_ref())⟧
+//@ rw R1 * ⟦config_dir.mash(config.as_ref())⟧ => ⟦config_dir.mash_s(config.as_ref())⟧
 //@ rw R3 1 for
 //@ ins after ⟦if let Ok(mut config_dirs) = sys_config_dirs() {⟧
                 let ghost dirs0 = config_dirs@;
@@ -258,7 +258,7 @@ impl Stdfs {
 //@ rw R2 1 ⟦crate::sys::user::config_dir()⟧ => ⟦config_dir()⟧
 //@ rw R2 1 ⟦crate::sys::user::sys_config_dirs()⟧ => ⟦sys_config_dirs()⟧
 //@ rw R3 1 ⟦for config_dir in config_dirs {⟧ => ⟦for config_dir in vec_into_iter(config_dirs) {⟧
-//@ rw R1 1 ⟦config_dir.mash(config.as_ref())⟧ => ⟦config_dir.mash_s(config.as_ref())⟧
+//@ rw R1 * ⟦config_dir.mash(config.as_ref())⟧ => ⟦config_dir.mash_s(config.as_ref())⟧
 //@ rw R3 1 for
 //@ ins after ⟦if let Ok(mut config_dirs) = sys_config_dirs() {⟧
                 let ghost dirs0 = config_dirs@;
